@@ -218,7 +218,9 @@ orc_avx_set_mxcsr (OrcCompiler *compiler)
 void
 orc_avx_restore_mxcsr (OrcCompiler *compiler)
 {
+  /* the caller's MXCSR was saved in params[ORC_VAR_C1]; params[ORC_VAR_A4]
+   * holds the modified copy (DAZ|FTZ set) */
   orc_vex_emit_cpuinsn_load_memoffset (compiler, ORC_X86_ldmxcsr, 4, 0,
-      (int)ORC_STRUCT_OFFSET (OrcExecutor, params[ORC_VAR_A4]),
+      (int)ORC_STRUCT_OFFSET (OrcExecutor, params[ORC_VAR_C1]),
       compiler->exec_reg, 0, 0, ORC_X86_AVX_VEX128_PREFIX);
 }
